@@ -64,19 +64,95 @@ example : (⟨true, 0x0A010200, 24⟩ : Prefix).contains ⟨true, 0x0A0102FF⟩ 
     (⟨true, 0x0A010200, 24⟩ : Prefix).contains ⟨true, 0x0A010300⟩ = false ∧
     (⟨true, 0x0A010200, 24⟩ : Prefix).contains ⟨false, 0x0A0102FF⟩ = false := by decide
 
+/-- **prefix_contains_bits.** … equivalently, bit by bit: the address and the prefix address agree on
+every bit above the host part (bit `i` counted from the least significant one; for an address below
+`2 ^ width` these are exactly the leading `bits` bits). -/
+theorem prefix_contains_bits (p : Prefix) (a : Addr) : p.contains a = true ↔ InSubnet p a := by
+  simp [Prefix.contains, InSubnet, shiftRight_eq_iff_testBit]
+
+example : InSubnet ⟨true, 0x0A010200, 24⟩ ⟨true, 0x0A0102FF⟩ ∧ ¬ InSubnet ⟨true, 0x0A010200, 24⟩ ⟨true, 0x0A010300⟩ := by
+  rw [← prefix_contains_bits, ← prefix_contains_bits]; decide
+
+/-- **blocked_iff_rejected.** The executable decision equals the declarative reading of the statement
+(`Rejected`: written with `∃ subnet ∈ list`, bit-level subnet membership and `∃ ASN`, without any of
+the model's list-scanning functions). -/
+theorem blocked_iff_rejected (g : Global) (r : Req) : blocked g r = true ↔ Rejected g r := by
+  have nets : ∀ (l : List Prefix) (a : Addr), matchNets l a = true ↔ ∃ n ∈ l, InSubnet n a := by
+    intro l a
+    simp [matchNets, List.any_eq_true, prefix_contains_bits]
+  have asns : ∀ (l : List Nat) (o : Option Nat), matchASNs l o = true ↔ AsnIn l o := by
+    intro l o
+    cases o <;> simp [matchASNs, AsnIn]
+  have nnets : ∀ (l : List Prefix) (a : Addr), matchNets l a = false ↔ ¬ ∃ n ∈ l, InSubnet n a := by
+    intro l a; rw [← nets]; simp
+  have nasns : ∀ (l : List Nat) (o : Option Nat), matchASNs l o = false ↔ ¬ AsnIn l o := by
+    intro l o; rw [← asns]; simp
+  rw [blocked_iff]
+  unfold Rejected Allowed NameBlocked
+  simp only [nets, asns, nnets, nasns, not_or]
+
+/-- Non-vacuity of `Rejected`: blocked ASN, not allowed. -/
+example :
+    Rejected { nets := [], eng := fun _ _ => ⟨false, none⟩ }
+      { addr := ⟨true, 0xC0000207⟩, port := 4000, qname := "ok.test.", qtype := 1, asn := some 42, ecsBad := false,
+        dev := .ok (some { allowedNets := [⟨true, 0xC0000201, 32⟩], blockedNets := [],
+                           allowedASN := [1], blockedASN := [42], eng := fun _ _ => ⟨false, none⟩ }) } := by
+  rw [← blocked_iff_rejected]; decide
+
 /-! ## Blocked means silent and traceless -/
 
-/-- **blocked_no_trace.** A rejected request makes the middleware do nothing that is visible outside:
-it writes no response (not even FORMERR for a malformed ECS option) and does not call the next stage —
-so rate limiting, caches, resolution, filtering, query log, billing and statistics, which all live
-behind `next`, never see it.  Holds whatever the port, the device-finder result and the ECS option. -/
-theorem blocked_no_trace (g : Global) (r : Req) (h : blocked g r = true) : (wrap g r).effects = [] :=
-  wrap_blocked g r h
+/-- **blocked_no_trace.** A rejected request makes neither the middleware nor the server do anything
+that is visible outside: the middleware writes no response (not even FORMERR for a malformed ECS
+option), does not call the next stage — so rate limiting, caches, resolution, filtering, query log,
+billing and statistics, which all live behind `next`, never see it — builds no request information for
+a later stage, and returns no error, so the server writes no SERVFAIL either (`wire = []`).  Holds
+whatever the port, the device-finder result (including its errors) and the ECS option. -/
+theorem blocked_no_trace (g : Global) (r : Req) (h : blocked g r = true) :
+    (wrap g r).effects = [] ∧ (wrap g r).err = false ∧ (wrap g r).info = none ∧ wire g r = [] := by
+  refine ⟨wrap_blocked_effects g r h, wrap_blocked_err g r h, wrap_blocked_info g r h, ?_⟩
+  simp [wire, wrap_blocked_effects g r h, wrap_blocked_err g r h]
 
 example :
-    (wrap { nets := [⟨true, 0x0A010200, 24⟩], eng := fun _ _ => ⟨false, none⟩ }
+    wire { nets := [⟨true, 0x0A010200, 24⟩], eng := fun _ _ => ⟨false, none⟩ }
       { addr := ⟨true, 0x0A010209⟩, port := 4000, qname := "ok.test.", qtype := 1, asn := none, ecsBad := true,
-        dev := .none }).effects = [] := by decide
+        dev := .error } = [] := by decide
+
+/-- **wire_cases.** The complete table of what one request causes, for every request: nothing for a
+spoofed port, nothing for a rejected request, and otherwise — "processed normally" — nothing for an
+unknown dedicated address, the server's SERVFAIL for a device-finder error, FORMERR (and the server's
+SERVFAIL for the returned error) for a malformed ECS option, and exactly one call of the next stage in
+every other case. -/
+theorem wire_cases (g : Global) (r : Req) :
+    wire g r =
+      if r.port = 0 then []
+      else if blocked g r = true then []
+      else match r.dev with
+        | .unknownDedicated => []
+        | .error => [.servfail]
+        | _ => if r.ecsBad then [.formerr, .servfail] else [.next] := by
+  by_cases hp : r.port = 0
+  · simp [wire, wrap, hp]
+  · by_cases hb : blocked g r = true
+    · simp [hp, hb, (blocked_no_trace g r hb).2.2.2]
+    · have hb' : blocked g r = false := by simpa using hb
+      have hr : accessReason g r = .pass := by simpa [blocked] using hb'
+      have hp' : (r.port == 0) = false := by simpa using hp
+      simp only [hp, hb', if_false, Bool.false_eq_true]
+      unfold wire wrap
+      simp only [hp', hr]
+      cases r.dev <;> simp <;> split <;> simp_all
+
+/-- **silent_iff.** A request causes nothing at all exactly when its source port is 0, a rule rejects
+it, or it came to an unknown dedicated address — nothing else is ever dropped by this stage. -/
+theorem silent_iff (g : Global) (r : Req) :
+    wire g r = [] ↔ r.port = 0 ∨ blocked g r = true ∨ r.dev matches .unknownDedicated := by
+  rw [wire_cases]
+  by_cases hp : r.port = 0
+  · simp [hp]
+  · by_cases hb : blocked g r = true
+    · simp [hp, hb]
+    · simp only [hp, hb, if_false, false_or]
+      cases r.dev <;> simp <;> split <;> simp
 
 /-- **blocked_invisible_to_downstream.** Over any history of requests and for an arbitrary stateful
 downstream (`next : σ → Req → σ × Option ρ` — rate limiter, caches, resolver, filters, query log,
@@ -166,24 +242,34 @@ example :
 
 /-! ## Everything else is processed normally -/
 
-/-- **unblocked_proceeds.** A request that no rule rejects (and that the stages before access control
+/-- **unblocked_proceeds.** A request that no rule rejects (and that the stages around access control
 do not drop: non-zero source port, device finder neither failed nor reported an unknown dedicated
-address) reaches the next stage exactly once, or — with a malformed ECS option — is answered FORMERR
-exactly once. -/
+address) reaches the next stage exactly once, with request information built from this very request —
+or, with a malformed ECS option, is answered FORMERR exactly once. -/
 theorem unblocked_proceeds (g : Global) (r : Req) (hb : blocked g r = false) (hp : r.port ≠ 0)
     (hu : ¬ r.dev matches .unknownDedicated) (he : ¬ r.dev matches .error) :
-    (wrap g r).effects = (if r.ecsBad then [.formerr] else [.next]) := by
+    (wrap g r).effects = (if r.ecsBad then [.formerr] else [.next]) ∧
+    (r.ecsBad = false → (wrap g r).info = some (reqInfo r) ∧ (wrap g r).err = false) := by
   unfold blocked at hb
   have hr : accessReason g r = .pass := by simpa using hb
   unfold wrap
   have hp' : (r.port == 0) = false := by simpa using hp
-  simp only [hp']
-  cases hd : r.dev <;> simp_all <;> split <;> rfl
+  simp only [hp', hr]
+  cases hd : r.dev <;> simp_all <;> split <;> simp_all
 
 example :
     (wrap { nets := [⟨true, 0x0A010200, 24⟩], eng := fun _ _ => ⟨false, none⟩ }
-      { addr := ⟨true, 0x0A010309⟩, port := 4000, qname := "ok.test.", qtype := 1, asn := none, ecsBad := false,
-        dev := .authFail }).effects = [.next] := by decide
+      { addr := ⟨true, 0x0A010309⟩, port := 4000, qname := "Ok.test.", qtype := 1, asn := none, ecsBad := false,
+        dev := .authFail }).info = some ⟨"ok.test", 1, 1, ⟨true, 0x0A010309⟩, none, false, .authFail⟩ := by decide
+
+/-- **pool_irrelevant.** The request information is taken from a pool and may still hold the data of an
+earlier (possibly rejected) request; after `newRequestInfo` and the assignments in `Wrap` nothing of
+it is left: the result is a function of the current request alone. -/
+theorem pool_irrelevant (pooled : RI) (r : Req) : fillInfo pooled r = reqInfo r := rfl
+
+example : fillInfo ⟨"secret.blocked.test", 16, 3, ⟨false, 7⟩, some 42, true, .ok⟩
+    { addr := ⟨true, 9⟩, port := 5, qname := "a.", qtype := 1, asn := none, ecsBad := false, dev := .none } =
+    ⟨"a", 1, 1, ⟨true, 9⟩, none, false, .none⟩ := by decide
 
 /-! ## Name rules over the modelled grammar -/
 
@@ -233,16 +319,37 @@ theorem pre_fix_root_query_counterexample :
   revert this
   decide
 
-/-- The repaired handler drops both witnesses. -/
+/-- **pre_fix_device_error_counterexample.** Before the third repair (`wrapDevFirst`: device result
+handled before the access check) a client in a globally blocked subnet whose request made the device
+finder fail (e.g. a malformed device-ID option) got a SERVFAIL from the server. -/
+theorem pre_fix_device_error_counterexample :
+    ¬ ∀ (g : Global) (r : Req), blocked g r = true → wireOf (wrapDevFirst g r) = [] := by
+  intro h
+  have := h { nets := [⟨true, 0x7F000000, 8⟩], eng := fun _ _ => ⟨false, none⟩ }
+    { addr := ⟨true, 0x7F000001⟩, port := 4000, qname := "ok.test.", qtype := 1, asn := none, ecsBad := false,
+      dev := .error } (by decide)
+  revert this
+  decide
+
+/-- The repaired handler drops all three witnesses. -/
 example :
     (wrap { nets := [], eng := ruleEngine [⟨.any, "", false, false, .only 2⟩] }
       { addr := ⟨true, 9⟩, port := 4000, qname := ".", qtype := 2, asn := none, ecsBad := false, dev := .none }).effects = [] ∧
     (wrap { nets := [⟨true, 0x0A010200, 24⟩], eng := fun _ _ => ⟨false, none⟩ }
       { addr := ⟨true, 0x0A010209⟩, port := 4000, qname := "ok.test.", qtype := 1, asn := none, ecsBad := true,
-        dev := .none }).effects = [] := by decide
+        dev := .none }).effects = [] ∧
+    wire { nets := [⟨true, 0x7F000000, 8⟩], eng := fun _ _ => ⟨false, none⟩ }
+      { addr := ⟨true, 0x7F000001⟩, port := 4000, qname := "ok.test.", qtype := 1, asn := none, ecsBad := false,
+        dev := .error } = [] := by decide
 
 #print axioms blocked_iff
 #print axioms prefix_contains_iff
+#print axioms prefix_contains_bits
+#print axioms blocked_iff_rejected
+#print axioms wire_cases
+#print axioms silent_iff
+#print axioms pool_irrelevant
+#print axioms pre_fix_device_error_counterexample
 #print axioms blocked_no_trace
 #print axioms blocked_invisible_to_downstream
 #print axioms allow_over_block
